@@ -903,8 +903,14 @@ def _upper_term(interp, t):
         return tm.mk_concat(*[_upper_term(interp, a) for a in t.args])
     if t.op == 'str.from_code_ok':
         k = t.args[0]
-        return tm.mk_from_code1(tm.mk_ite(tm.mk_and(tm.mk_le(tm.const(97), k), tm.mk_le(k, tm.const(122))),
-                                          tm.mk_sub(k, tm.const(32)), k))
+        if k in interp.ctx.ghost.get('upper_codes', ()):
+            return t
+        u = tm.mk_ite(tm.mk_and(tm.mk_le(tm.const(97), k), tm.mk_le(k, tm.const(122))),
+                      tm.mk_sub(k, tm.const(32)), k)
+        if k in tm.LETTER_CODES:
+            tm.LETTER_CODES.add(u)
+            interp.ctx.ghost.setdefault('upper_codes', set()).add(u)
+        return tm.mk_from_code1(u)
     if t.op == 'ite':
         return tm.mk_ite(t.args[0], _upper_term(interp, t.args[1]), _upper_term(interp, t.args[2]))
     if t.op == 'app' and t.val == 'dec':
